@@ -639,6 +639,13 @@ def update(tree):
                     if c.args or set(kws) != {"key", "value"} or not is_attr(kws["key"], var, "key"):
                         fail(s, ".set must be called as set(key=var.key, value=...)")
                     v = kws["value"]
+                    # a copy of the element / slice carries the same values (C06 repair: parameter[start:stop].copy())
+                    if isinstance(v, ast.Call) and not v.keywords:
+                        if isinstance(v.func, ast.Attribute) and v.func.attr == "copy" and not v.args:
+                            v = v.func.value
+                        elif isinstance(v.func, ast.Attribute) and is_name(v.func.value, "np") \
+                                and v.func.attr in ("copy", "array") and len(v.args) == 1:
+                            v = v.args[0]
                     if not (isinstance(v, ast.Subscript) and is_name(v.value, "parameter")):
                         fail(s, "the value set is not an element / slice of `parameter`")
                     if sel is not None:
